@@ -475,7 +475,7 @@ func oracle(c *lib.Ctx, r *lib.RNG) []lib.OracleFail {
 }
 
 func Run(c *lib.Ctx) {
-	c.Rule = "correspondence: random decoder tables (≤4 decoders × ≤3 source types × ≤4 values; coherent-by-type, single-taker and arbitrary tables) with random decode sequences run on the real encoding.DecoderGroup and on the Lean model; a case is non-trivial when its trace shows ≥2 different result classes, distinct by table+trace. oracle: every (value,type) pair of a fixed pool decoded cold vs after random warm-up histories vs concurrently on the real registry; distinct by probe+history"
+	c.Rule = "correspondence: random decoder tables (≤4 decoders × ≤3 source types × ≤4 values; coherent-by-type, single-taker and arbitrary tables) with random decode sequences run on the real encoding.DecoderGroup and on the Lean model; a case is non-trivial when its trace shows ≥2 different result classes, distinct by table+trace. oracle: every (value,type) pair of a fixed pool decoded cold vs after random warm-up histories vs concurrently on the real registry; distinct by probe+history. cross-process oracle: the harness re-executes itself as fresh child processes which perform the same encodes and decodes through the process-global registries (a struct family with equal tags on differently named fields, untagged and inline fields, plus the fixed pool) in different random orders (every third one: all encodes first); every decode result must be the same in all processes"
 	c.Assumptions = []string{
 		"the target's previous content is not part of the observable result (targets are fresh zero values)",
 		"decoders of the real registry satisfy the Coherent hypothesis of C17.group_pure; this is checked empirically by the cold/warm/concurrent oracle, not proved from the Go source",
@@ -489,5 +489,6 @@ func Run(c *lib.Ctx) {
 		ms = append(ms, asmCorrespondence(c, r.Fork())...)
 	}
 	fails := oracle(c, r.Fork())
+	fails = append(fails, crossProcess(c, r.Fork())...)
 	c.Conclude("DecoderGroup.Decode ≈ Uniflow.Group.decode", ms, fails)
 }
